@@ -71,7 +71,7 @@ struct format_options {
 
 struct locale_options {
 	locale_options()
-	: decimal_point("."), thousands_sep(""), grouping("\255") { }
+	: decimal_point("."), thousands_sep(""), grouping("\255"), thousands_sep_size(0) { }
 
 	locale_options(const char *d_p, const char *t_s, const char *grp)
 	: decimal_point(d_p), thousands_sep(t_s), grouping(grp) {
